@@ -62,7 +62,10 @@ IntArg(tok) == IF tok = "i2" THEN 2 ELSE IF tok = "i3" THEN 3 ELSE IF tok = "im1
 IsIntTok(tok) == tok \in {"i2", "i3", "im1", "none"}
 Big == 100000
 RECURSIVE IPow(_, _)
-IPow(b, e) == IF e = 0 THEN 1 ELSE LET p == IPow(b, e - 1) IN IF p = Big \/ p * b >= Big \/ p * b <= -Big THEN Big ELSE p * b
+AbsI(x) == IF x < 0 THEN -x ELSE x
+\* (the product is only formed when it cannot overflow TLC's 32-bit integers)
+IPow(b, e) == IF e = 0 THEN 1 ELSE LET p == IPow(b, e - 1) IN
+              IF p = Big \/ (b # 0 /\ AbsI(p) > Big \div AbsI(b)) THEN Big ELSE p * b
 \* one operator on one integer; "undef" outcomes are encoded as Big (division by zero, negative
 \* exponent, float scalar, magnitude >= Big): the replay then relies on the eager oracle only
 EvalOp(x, op) ==
